@@ -1,5 +1,122 @@
 package run
 
+import (
+	"fmt"
+	"sync"
+	"time"
+
+	"verif/engine/exec"
+	"verif/engine/solver"
+)
+
+// selfTest cross-checks the SMT encoding between solvers: a sample of the
+// queries the executor really sends (path condition + branch or negated
+// assertion, taken from a prefix of four harnesses) is rendered as standalone
+// scripts and decided again by z3 4.8.12, z3 5.1.0 and cvc5 1.0 as one-shot
+// processes. Every definite answer must equal the verdict of the incremental
+// z3 session, and at least two solvers must answer each query. Nothing is
+// written to the evidence directory.
 func selfTest(o *Options) (int, error) {
+	type smp struct {
+		harness string
+		script  string
+		res     solver.Result
+	}
+	var mu sync.Mutex
+	var samples []smp
+	cur := ""
+	per := 0
+	exec.SampleEvery = 37
+	exec.SampleHook = func(script string, r solver.Result) {
+		mu.Lock()
+		defer mu.Unlock()
+		if per < 60 {
+			per++
+			samples = append(samples, smp{cur, script, r})
+		}
+	}
+	for _, h := range []struct {
+		name  string
+		paths int
+	}{{"VerifJSON_Direct", 3000}, {"VerifC05_Get", 600}, {"VerifC04_Stream", 300}, {"VerifC14_Keys", 600}, {"VerifC02_Strings", 300}} {
+		o2 := *o
+		o2.Harness, o2.Property, o2.MaxPaths, o2.NoReplay, o2.NoEvidence, o2.Tier = h.name, "", h.paths, true, true, "quick"
+		mu.Lock()
+		cur, per = h.name, 0
+		mu.Unlock()
+		var specs []*Spec
+		for _, s := range Registry() {
+			if s.Name == h.name {
+				specs = append(specs, s)
+				break
+			}
+		}
+		o2.Property = specs[0].Property
+		o2.Quiet = true
+		if code, err := runProperty(&o2, specs); err != nil || code == 1 {
+			return 2, fmt.Errorf("selftest: harness %s: code %d %v", h.name, code, err)
+		}
+	}
+	exec.SampleHook = nil
+	nsat := 0
+	for _, s := range samples {
+		if s.res == solver.Sat {
+			nsat++
+		}
+	}
+	fmt.Printf("selftest: %d sampled queries (%d sat, %d unsat by incremental z3)\n", len(samples), nsat, len(samples)-nsat)
+	solvers := []solver.OneShot{solver.Z3Old, solver.Z3New, solver.CVC5}
+	type out struct {
+		i       int
+		answers int
+		bad     string
+		dur     time.Duration
+	}
+	ch := make(chan out, len(samples))
+	sem := make(chan bool, 8)
+	for i, s := range samples {
+		i, s := i, s
+		sem <- true
+		go func() {
+			defer func() { <-sem }()
+			t0 := time.Now()
+			script := "(set-logic ALL)\n" + s.script + "(check-sat)\n"
+			r := out{i: i}
+			for _, sv := range solvers {
+				sr := solver.RunOneShot(sv, script, 20*time.Second)
+				if sr.Err != nil {
+					r.bad = fmt.Sprintf("%s: %v", sv.Name, sr.Err)
+					continue
+				}
+				if sr.Res == solver.Unknown {
+					continue
+				}
+				r.answers++
+				if sr.Res != s.res {
+					r.bad = fmt.Sprintf("%s answers %v, incremental z3 answered %v", sv.Name, sr.Res, s.res)
+				}
+			}
+			r.dur = time.Since(t0)
+			ch <- r
+		}()
+	}
+	bad, thin := 0, 0
+	per3 := map[string]int{}
+	for range samples {
+		r := <-ch
+		per3[samples[r.i].harness]++
+		if r.bad != "" {
+			bad++
+			fmt.Printf("selftest: DISAGREEMENT on a query of %s: %s\n", samples[r.i].harness, r.bad)
+		}
+		if r.answers < 2 {
+			thin++
+		}
+	}
+	fmt.Printf("selftest: per harness %v; %d disagreements; %d queries answered by fewer than two solvers within 20 s\n", per3, bad, thin)
+	if bad > 0 || len(samples) == 0 || thin > len(samples)/4 {
+		return 2, nil
+	}
+	fmt.Println("OK selftest")
 	return 0, nil
 }
